@@ -428,7 +428,7 @@ def _check(engine, prop, tier, seed, jobs, args, t0):
     rate = agg['n'] / wall * 3600 if wall else 0
     print('runs=%d steps=%d metered_lines=%d distinct_states=%d wall=%.1fs (%.0f runs/h) digest=%s%s'
           % (agg['n'], agg['steps'], agg['lines'], len(agg['states']), wall, rate,
-             batch_digest[:16], ' TRUNCATED-BY-WALL-CAP' if truncated else ''))
+             batch_digest[:16], ' TRUNCATED' if truncated else ''))
     print('faults fired: %s' % dict(sorted(agg['faults'].items())))
 
     if harness_unconfirmed:
